@@ -17,6 +17,8 @@ pub enum ReadOp {
     /// the same blob extracted into a target with limited room (see `gen::LimitSink`); only used where results
     /// are compared for equality with a fresh reader
     BlobInto { which: u8, room: u16, mode: u8 },
+    /// either iterator driven through the standard adaptors skip(skip).step_by(step), at most `take` items
+    Stride { cloud: u8, simple: bool, skip: u16, step: u8, take: u16 },
 }
 
 /// Result of one read operation: the Ok items (hashed), whether the
@@ -210,6 +212,53 @@ pub fn run_op<T: Read + Seek>(rd: &mut E57Reader<T>, op: &ReadOp, free: &[(u64, 
                 Err(e) => OpOut { items: vec![], completed: false, err: Some(e.to_string()), after_err: vec![] },
             }
         }
+        ReadOp::Stride { cloud, simple, skip, step, take } => {
+            let pcs = rd.pointclouds();
+            if pcs.is_empty() {
+                return OpOut { items: vec![], completed: true, err: None, after_err: vec![] };
+            }
+            let pc = &pcs[*cloud as usize % pcs.len()];
+            let mut out = OpOut { items: vec![], completed: false, err: None, after_err: vec![] };
+            let limit = (*take as u64).min(pc.records.saturating_add(2));
+            let step = (*step as usize).max(1);
+            if *simple {
+                let it = match rd.pointcloud_simple(pc) {
+                    Ok(i) => i,
+                    Err(e) => return OpOut { items: vec![], completed: false, err: Some(e.to_string()), after_err: vec![] },
+                };
+                for item in it.skip(*skip as usize).step_by(step) {
+                    if out.items.len() as u64 >= limit {
+                        return out;
+                    }
+                    match item {
+                        Ok(p) => out.items.push(hash_str(&format!("{p:?}"))),
+                        Err(e) => {
+                            out.err = Some(e.to_string());
+                            return out;
+                        }
+                    }
+                }
+            } else {
+                let it = match rd.pointcloud_raw(pc) {
+                    Ok(i) => i,
+                    Err(e) => return OpOut { items: vec![], completed: false, err: Some(e.to_string()), after_err: vec![] },
+                };
+                for item in it.skip(*skip as usize).step_by(step) {
+                    if out.items.len() as u64 >= limit {
+                        return out;
+                    }
+                    match item {
+                        Ok(p) => out.items.push(hash_str(&format!("{:?}", p.iter().map(val_from_e57).collect::<Vec<_>>()))),
+                        Err(e) => {
+                            out.err = Some(e.to_string());
+                            return out;
+                        }
+                    }
+                }
+            }
+            out.completed = true;
+            out
+        }
         ReadOp::BlobInto { which, room, mode } => {
             let blobs = blob_list(rd, free);
             if blobs.is_empty() {
@@ -246,12 +295,13 @@ pub fn gen_op(s: &mut Src) -> ReadOp {
         1 => s.below(6) as u32,
         _ => s.below(3000) as u32,
     };
-    match s.weighted(&[1, 1, 4, 4, 3, 2]) {
+    match s.weighted(&[1, 1, 4, 4, 3, 2, 2]) {
         0 => ReadOp::Xml,
         1 => ReadOp::Descriptors,
         2 => ReadOp::Raw { cloud: s.byte(), take: take(s) },
         3 => ReadOp::Simple { cloud: s.byte(), opts: if s.chance(1, 3) { Opts::DEFAULT_BITS } else { s.below(64) as u8 }, take: take(s) },
         4 => ReadOp::Blob { which: s.byte() },
+        6 => ReadOp::Stride { cloud: s.byte(), simple: s.flag(), skip: s.below(40) as u16, step: 1 + s.below(9) as u8, take: if s.flag() { u16::MAX } else { s.below(30) as u16 } },
         _ => ReadOp::BlobInto { which: s.byte(), room: if s.flag() { s.below(9) as u16 } else { s.below(3000) as u16 }, mode: s.below(3) as u8 },
     }
 }
